@@ -544,4 +544,73 @@ theorem params_ok (p : Nat × Nat) (rest : List (Nat × Nat)) :
     mergeParams (p :: rest) = some (p.1, p.2 + (rest.map (·.2)).sum) := by
   simp [mergeParams]
 
+/-! index offsets (arbitrary channel maps, gaps allowed) -/
+
+theorem chanIndexOffsetsFrom_length (maps : List (List Nat)) :
+    ∀ off : Nat, (chanIndexOffsetsFrom off maps).length = maps.length := by
+  induction maps with
+  | nil => intro off; rfl
+  | cons m rest ih => intro off; simp [chanIndexOffsetsFrom, ih]
+
+theorem chanIndexOffsetsFrom_getD (maps : List (List Nat)) :
+    ∀ (off k : Nat), k < maps.length →
+      (chanIndexOffsetsFrom off maps).getD k 0 = off + prefixSum (maps.map List.length) k := by
+  induction maps with
+  | nil => intro off k hk; simp at hk
+  | cons m rest ih =>
+    intro off k hk
+    cases k with
+    | zero => simp [chanIndexOffsetsFrom, prefixSum_zero]
+    | succ k =>
+      have hk' : k < rest.length := by simpa using hk
+      rw [chanIndexOffsetsFrom, List.getD_cons_succ, ih _ k hk', List.map_cons, prefixSum_cons_succ]
+      omega
+
+theorem chanIndexOffsets_eq_prefix (maps : List (List Nat)) (k : Nat) (hk : k < maps.length) :
+    (chanIndexOffsets maps).getD k 0 = prefixSum (maps.map List.length) k := by
+  rw [chanIndexOffsets, chanIndexOffsetsFrom_getD maps 0 k hk]; omega
+
+theorem mergePcInd_eq_shiftTables (maps : List (List Nat)) (tables : List (List (List Nat))) :
+    mergePcInd maps tables = shiftTables tables (chanIndexOffsets maps) := rfl
+
+/-- `channels_block` without `MapsOK`: position `c` of block `k` of the merged channel arrays,
+for arbitrary channel maps (the raw offset stays `chanOffsets`) -/
+theorem channels_block_any (maps : List (List Nat)) (k i : Nat)
+    (hi : i < (maps.getD k []).length) :
+    (mergeChannelMaps maps).getD (prefixSum (maps.map List.length) k + i) 0 =
+        (maps.getD k []).getD i 0 + (chanOffsets maps).getD k 0 ∧
+    (channelProbes maps).getD (prefixSum (maps.map List.length) k + i) maps.length = k := by
+  have hk : k < maps.length := lt_length_of_lt_getD_length maps k i hi
+  have hlen : (chanOffsets maps).length = maps.length := chanOffsetsFrom_length maps 0
+  have hlenr : (List.range' 0 maps.length).length = maps.length := by simp
+  refine ⟨?_, ?_⟩
+  · have := zipFlat_get (fun x o => x + o) maps (chanOffsets maps) k i hlen hk hi
+    rw [mergeChannelMaps, List.getD_eq_getElem?_getD, this]
+    generalize maps.getD k [] = row at hi ⊢
+    simp [List.getD_eq_getElem?_getD, List.getElem?_eq_getElem hi]
+  · have := zipFlat_get (fun (_ : Nat) o => o) maps (List.range' 0 maps.length) k i hlenr hk hi
+    rw [channelProbes_eq, List.getD_eq_getElem?_getD, this, List.getElem?_eq_getElem hi]
+    simp [List.getD_eq_getElem?_getD, hk]
+
+theorem pc_ind_in_block (maps : List (List Nat)) (tables : List (List (List Nat))) (k r j : Nat)
+    (hk : k < maps.length) (hlen : tables.length = maps.length)
+    (hr : r < (tables.getD k []).length) (hj : j < ((tables.getD k []).getD r []).length)
+    (hc : ((tables.getD k []).getD r []).getD j 0 < (maps.getD k []).length) :
+    let c := ((tables.getD k []).getD r []).getD j 0
+    let c' := ((mergePcInd maps tables).getD (prefixSum (tables.map List.length) k + r) []).getD j 0
+    c' = prefixSum (maps.map List.length) k + c ∧
+    (channelProbes maps).getD c' maps.length = k ∧
+    (mergeChannelMaps maps).getD c' 0 = (maps.getD k []).getD c 0 + (chanOffsets maps).getD k 0 := by
+  intro c c'
+  have hlenI : (chanIndexOffsets maps).length = tables.length := by
+    rw [chanIndexOffsets, chanIndexOffsetsFrom_length, hlen]
+  have hc' : c' = prefixSum (maps.map List.length) k + c := by
+    show ((mergePcInd maps tables).getD (prefixSum (tables.map List.length) k + r) []).getD j 0 = _
+    rw [mergePcInd_eq_shiftTables, tables_shifted tables _ hlenI k r j hr, if_pos hj,
+      chanIndexOffsets_eq_prefix maps k hk]
+    exact Nat.add_comm _ _
+  have hb := channels_block_any maps k c hc
+  rw [hc']
+  exact ⟨rfl, hb.2, hb.1⟩
+
 end PhyVerif.C12.Lemmas
